@@ -70,12 +70,12 @@ where
     // it is min/max allowed path length minus one, because it is more appropriate when implementing lookahead
     // than constantly add 1 to length of current path
     let max_length = if let Some(l) = max_intermediate_nodes {
-        l + 1
+        l.saturating_add(1)
     } else {
-        graph.node_count() - 1
+        graph.node_count().saturating_sub(1)
     };
 
-    let min_length = min_intermediate_nodes + 1;
+    let min_length = min_intermediate_nodes.saturating_add(1);
 
     // list of visited nodes
     let mut visited: IndexSet<G::NodeId, S> = IndexSet::from_iter(Some(from));
